@@ -479,6 +479,24 @@ def put_switch_settings(c, rng):
 WL_EXPECT = set()     # cases in which the documentation promises acceptance (filterconf(5): whitelistauth)
 
 
+def gen_spacebug(ctx):
+    """smtp_space_bug: every documented value against plain SMTP, ESMTP and authenticated sessions, the space in
+    MAIL FROM and/or RCPT TO (filterconf(5): 1 = ESMTP only, 2 = TLS or authenticated only, 3 = authenticated only,
+    other values reject)"""
+    out = []
+    for kind in ('dir', 'qmail'):
+        for val in ('0', '1', '2', '3', '4', '255', '-1'):
+            for lvl in (['U', 'D', 'G'] if kind == 'dir' else ['D', 'G']):
+                for ehlo, auth in ((0, 0), (1, 0), (1, 1)):
+                    for rspace, mspace in ((1, 0), (0, 1), (1, 1), (0, 0)):
+                        c = Case('spacebug', kind)
+                        c.set(ehlo=ehlo, auth=auth, rspace=rspace, mspace=mspace)
+                        c.setting(lvl, 'smtp_space_bug=' + val)
+                        out.append(c.finish())
+                        ctx.count('gen:spacebug')
+    return out
+
+
 def gen_whitelist_order(ctx):
     """whitelistauth against every denying filter: an authenticated client with whitelistauth in force passes
     whatever a later filter would say; without authentication, or with whitelistauth=-1 at a nearer level,
@@ -716,6 +734,20 @@ def gen_files(ctx, full):
                 put_switch_settings(c, rng)
                 out.append(c.finish())
                 ctx.count('gen:file-levels')
+    # list files that hand on to the next level with `!inherit`: every chain over the levels (a chain of two
+    # `!inherit` lines must reach the global file)
+    for kind in ('dir', 'qmail'):
+        lv = ['U', 'D', 'G'] if kind == 'dir' else ['D', 'G']
+        for combo in itertools.product(['absent', 'inherit', 'inherit-first', 'hit', 'nohit'], repeat=len(lv)):
+            c = Case('files-inherit', kind)
+            for l, st in zip(lv, combo):
+                if st == 'absent':
+                    continue
+                content = {'inherit': b'other.invalid\n!inherit\n', 'inherit-first': b'!inherit\nother.invalid\n',
+                           'hit': b'pass.example\n', 'nohit': b'other.invalid\n'}[st]
+                c.file(l, 'badmailfrom', content)
+            out.append(c.finish())
+            ctx.count('gen:file-inherit-chains')
     return out
 
 
@@ -776,6 +808,7 @@ def run(ctx):
             evaluate(ctx, binary, 'corpus', lines)
         evaluate(ctx, binary, 'settings', gen_settings(ctx, full))
         evaluate(ctx, binary, 'whitelist-order', gen_whitelist_order(ctx))
+        evaluate(ctx, binary, 'spacebug', gen_spacebug(ctx))
         evaluate(ctx, binary, 'setting-pairs', gen_pairs(ctx, 6000 if full else 400))
         evaluate(ctx, binary, 'file-levels', gen_files(ctx, full))
         evaluate(ctx, binary, 'filterconf-syntax', gen_syntax(ctx, 4000 if full else 300))
